@@ -219,6 +219,19 @@ pub fn run_case(line: &str, emit: &mut dyn FnMut(String)) {
         emit("BAD".into());
         return;
     };
+    if tag.starts_with("@tf.") {
+        // one parser on a file buffer, character by character (Model/TermFile.lean)
+        let class = crate::textload::stream_case(tag, &bytes, emit);
+        emit(format!("R {}", class));
+        return;
+    }
+    if !tag.starts_with('@') && crate::textload::kind_of_ext(tag).is_some() {
+        // a text format: Model/TextLoad.lean (replica stepping for the oracle values + the real `Buffer::from_bytes`)
+        let df = date_flag(&bytes);
+        let class = crate::textload::file_case(tag, &bytes, df, emit);
+        emit(format!("R {}", class));
+        return;
+    }
     if !tag.starts_with('@') {
         let ext = tag;
         let lower = ext.to_ascii_lowercase();
@@ -1589,6 +1602,8 @@ pub fn gen_cases(seed: u64, thorough: bool) -> Vec<String> {
             cs.push(chunks_case(&[("FONT_1".into(), p)]));
         }
     }
+    // --- text-format loaders: streams on a file buffer and whole files (harness/src/textload.rs)
+    cs.extend(crate::textload::gen_cases(seed, thorough));
     cs
 }
 
@@ -1687,7 +1702,7 @@ pub fn run(run: &mut Run, seed: u64, thorough: bool, replay: Option<&str>, corpu
                         if let Some(m) = mop.take() {
                             // long request lines (files with 4 KiB font blocks) are sub-sampled for the model run;
                             // the oracle above has seen every one of them
-                            let keep = m.len() <= 1500 || fnv(m.bytes().map(|b| b as u64)) % (if thorough { 16 } else { 4 }) == 0 || i.starts_with("panic");
+                            let keep = m.len() <= 1500 || (m.starts_with("textload ") && m.len() <= 120_000) || fnv(m.bytes().map(|b| b as u64)) % (if thorough { 16 } else { 4 }) == 0 || i.starts_with("panic");
                             if keep {
                                 run.case(&m, i.trim_end());
                                 had_pair = true;
